@@ -383,6 +383,22 @@ func (w *world) tamper(o op) {
 	}
 }
 
+// fragMethods: none of them contains a standard method name (the matcher is an unanchored regular
+// expression; tokens that merely contain an allowed method are outside the harness's stated domain).
+var fragMethods = []string{"GE", "ET", "G", "E", "T", "", ".", ".*", "G.T", "|", "POS", "OST", "DEL", "ELETE", "PU", "get", "Get", "[A-Z]+", "(", "G|P"}
+
+func validToken(m string) bool {
+	if m == "" {
+		return false
+	}
+	for _, c := range m {
+		if !(c >= 'A' && c <= 'Z' || c >= 'a' && c <= 'z' || c >= '0' && c <= '9' || c == '-' || c == '.' || c == '|' || c == '*' || c == '+') {
+			return false
+		}
+	}
+	return true
+}
+
 func mod(a, n int) int {
 	if n <= 0 {
 		return 0
@@ -408,6 +424,11 @@ func (w *world) doEnforce(o op) *failure {
 	var method string
 	if o.Meth >= 0 && o.Meth <= 2 {
 		method = rw.Methods[mod(o.Meth, len(rw.Methods))]
+	} else if o.Meth >= 100 {
+		// a method token that is no standard method and contains none (clients may send any token): it
+		// is a fragment of, or a pattern over, the method the row allows
+		method = fragMethods[mod(o.Meth, len(fragMethods))]
+		w.r.Class("method:fragment-or-pattern-of-an-allowed-method")
 	} else {
 		method = stdMethods[mod(o.Meth, len(stdMethods))]
 	}
@@ -427,7 +448,7 @@ func (w *world) doEnforce(o op) *failure {
 	if t.Issuer >= 0 && t.State == stExpired {
 		w.flag("expired")
 	}
-	if o.Handler && headerSafe(t.S) {
+	if o.Handler && headerSafe(t.S) && validToken(method) {
 		reached, status, body, pan := viaHandlerBody(w.auths[x], t.S, path, method)
 		herr := handlerErr(status, body)
 		if f := judge(w.r, t, x, path, method, reached, herr, pan, "PermissionCheckHandler"); f != nil {
@@ -658,7 +679,7 @@ func genOp(t *rapid.T, kind string) op {
 		o.Row = rapid.IntRange(0, len(policy)-1).Draw(t, "row")
 		o.Var = rapid.IntRange(0, 9).Draw(t, "var")
 		o.Segs = []string{genSeg(t), genSeg(t)}
-		o.Meth = rapid.OneOf(rapid.IntRange(0, 2), rapid.IntRange(3, 2+len(stdMethods))).Draw(t, "meth")
+		o.Meth = rapid.OneOf(rapid.IntRange(0, 2), rapid.IntRange(3, 2+len(stdMethods)), rapid.IntRange(100, 99+len(fragMethods))).Draw(t, "meth")
 		o.Handler = rapid.IntRange(0, 2).Draw(t, "handler") == 0
 	}
 	return o
@@ -692,7 +713,7 @@ func record(r *evid.Rec, c kase, flags map[string]bool) {
 	r.Sample(c)
 }
 
-const rule = "rapid op lists over a token population held by two real Authenticators with different keys: gen(role in {consumer,creator,maintainer,master,unknown,'',Master,'consumer '}, expiry in -3600..-1 | 1..599 | 600..1e6) / refresh(token, expiry, via either authenticator) / tamper(bit flip, string or byte truncation, extension, insertion, substitution, nonce-ciphertext splice, re-encoding, random base64, random string) / enforce(token, path built from a policy row x variant {inside, /v1 inside, parent, child, other resource, sibling, /v2, deeper}, row method or standard method, directly and through PermissionCheckHandler). Oracle: provenance model (issuer, role, expired?) + pinned policy table read under two readings of '*' (asserted only where both agree). Non-trivial = the case enforces/refreshes an altered, aliased, expired or foreign-key token, or sees a denied request; distinct by hash of the case. Concurrent variant: 2-4 goroutines x 1-8 requests (Enforce or RefreshKey with live / long-expired tokens of the four roles, 8 paths, 3 methods) repeated 20-100 times against one authenticator; oracle: verdict equals the verdict of the same request asked alone, expired tokens never honoured; non-trivial there = at least two goroutines and two different tokens; also run under the race detector"
+const rule = "rapid op lists over a token population held by two real Authenticators with different keys: gen(role in {consumer,creator,maintainer,master,unknown,'',Master,'consumer '}, expiry in -3600..-1 | 1..599 | 600..1e6) / refresh(token, expiry, via either authenticator) / tamper(bit flip, string or byte truncation, extension, insertion, substitution, nonce-ciphertext splice, re-encoding, random base64, random string) / enforce(token, path built from a policy row x variant {inside, /v1 inside, parent, child, other resource, sibling, /v2, deeper}, row method, standard method or a non-standard token that is a fragment of / pattern over an allowed method (containing no standard method name), directly and through PermissionCheckHandler). Oracle: provenance model (issuer, role, expired?) + pinned policy table read under two readings of '*' (asserted only where both agree). Non-trivial = the case enforces/refreshes an altered, aliased, expired or foreign-key token, or sees a denied request; distinct by hash of the case. Concurrent variant: 2-4 goroutines x 1-8 requests (Enforce or RefreshKey with live / long-expired tokens of the four roles, 8 paths, 3 methods) repeated 20-100 times against one authenticator; oracle: verdict equals the verdict of the same request asked alone, expired tokens never honoured; non-trivial there = at least two goroutines and two different tokens; also run under the race detector"
 
 func TestC35_Model(t *testing.T) {
 	r := evid.Get(id)
